@@ -23,8 +23,16 @@ Begin ==
   /\ obs' = [a |-> "none", arg |-> [x |-> 0], exp |-> [ret |-> "ok", tree |-> <<>>, links |-> 0, ev |-> <<>>]]
   /\ j' = 1 /\ l' = l
 
+(* quoting 1: as the value requires (none if it can be written bare), 2: quoted whenever the format has a quote *)
+CanQuote(v) == {q \in F.esc : QuotedOK(F, v, q)}
+Quote(it) ==
+  IF it.q \notin {1, 2} THEN it.q
+  ELSE IF it.q = 1 /\ UnquotedOK(F, it.v) THEN 0
+  ELSE IF CanQuote(it.v) # {} THEN CHOOSE q \in CanQuote(it.v) : \A r \in CanQuote(it.v) : q <= r
+  ELSE 0
+
 ItemAct(it) ==
-  CASE it.k = "opt"   -> AddOption(it.n, it.v, it.q, it.d.g, it.d.b1, it.d.b2, it.d.b3, IF F.oe # 0 THEN "end" ELSE it.d.term)
+  CASE it.k = "opt"   -> AddOption(it.n, it.v, Quote(it), it.d.g, it.d.b1, it.d.b2, it.d.b3, IF F.oe # 0 THEN "end" ELSE it.d.term)
     [] it.k = "open"  -> OpenSection(it.n, it.d.g, it.d.b1, it.d.b2, it.d.g2)
     [] it.k = "close" -> CloseSection(it.d.g)
     [] OTHER -> FALSE
